@@ -729,4 +729,90 @@ def item_select_decisions(repo, out):
                   coq_string(h['pol_b_cmp']), coq_Z(_int(h['pol_b_index'], 'pol'))))
 
 
-ITEMS = [item_select_tables, item_select_decisions]
+# ---------------------------------------------------------------------------------------------------------------
+# item_select_atomic: the decorator that makes DataSet.select all-or-nothing (repair of F74).  `select` must carry
+# exactly this decorator, the decorator must match the template, and the attributes its handler puts back are
+# read from the matched code (the `keeps` tuple, `_selection`, the `old_state` tuple) and emitted as
+# sel_atomic_restores, which Model/SelectA.v interprets (`restore`).  Without the decorator sel_atomic = false is
+# emitted (the model is then the bare method body and the atomicity theorems of Props/C02.v break).
+
+ATOMIC_NAME = '_restore_selection_on_error'
+T_ATOMIC = """
+@functools.wraps(select)
+def wrapper(self, **kwargs):
+    keeps = (self._time_keep, self._freq_keep, self._corrprod_keep)
+    old_keeps = [keep.copy() for keep in keeps]
+    old_selection = dict(self._selection)
+    old_state = (self.spw, self.subarray, self._weights_keep, self._flags_keep)
+    try:
+        return select(self, **kwargs)
+    except Exception:
+        for keep, old_keep in zip(keeps, old_keeps):
+            keep[:] = old_keep
+        self._time_keep, self._freq_keep, self._corrprod_keep = keeps
+        self._selection.clear()
+        self._selection.update(old_selection)
+        self.spw, self.subarray, self._weights_keep, self._flags_keep = old_state
+        raise
+return wrapper
+"""
+# every component of the state of Model/SelectX.v (xst without the public attributes)
+ATOMIC_STATE = ['_time_keep', '_freq_keep', '_corrprod_keep', '_selection', 'spw', 'subarray', '_weights_keep', '_flags_keep']
+
+
+def _tuple_attrs(node, what):
+    if not isinstance(node, ast.Tuple):
+        raise TranslateError('%s: tuple of self attributes expected' % what)
+    names = [_self_attr(e) for e in node.elts]
+    if None in names:
+        raise TranslateError('%s: tuple of self attributes expected' % what)
+    return names
+
+
+def item_select_atomic(repo, out):
+    tree = _parse(repo, REL)
+    cls = _class(tree, 'DataSet', REL)
+    fn = _func(cls, 'select', REL)
+    if len([n for n in cls.body if isinstance(n, ast.FunctionDef) and n.name == 'select']) != 1:
+        raise TranslateError('DataSet.select is defined more than once')
+    for n in ast.walk(tree):
+        # nobody else may reach the undecorated body or rebind the method
+        if isinstance(n, ast.Attribute) and n.attr == '__wrapped__':
+            raise TranslateError('%s: __wrapped__ is used (the undecorated select() could be called)' % REL)
+        if isinstance(n, (ast.Assign, ast.AugAssign, ast.AnnAssign)):
+            for t in (n.targets if isinstance(n, ast.Assign) else [n.target]):
+                if isinstance(t, ast.Attribute) and t.attr == 'select':
+                    raise TranslateError('%s: the attribute select is assigned to' % REL)
+    decos = fn.decorator_list
+    if not decos:
+        out.append('Definition sel_atomic : bool := false.')
+        out.append('Definition sel_atomic_restores : list string := [].')
+        return
+    if len(decos) != 1 or not _is_name(decos[0], ATOMIC_NAME):
+        raise TranslateError('DataSet.select: decorator list is not [@%s]' % ATOMIC_NAME)
+    deco = _funcdef_module(tree, ATOMIC_NAME)
+    if [x.arg for x in deco.args.args] != ['select'] or deco.args.vararg or deco.args.kwarg or deco.args.kwonlyargs \
+            or deco.decorator_list:
+        raise TranslateError('%s: signature is not (select)' % ATOMIC_NAME)
+    body = _nodoc(deco.body)
+    h = _Holes()
+    _match_stmts(body, T_ATOMIC, h, ATOMIC_NAME)
+    wrapper = body[0]
+    wbody = _nodoc(wrapper.body)
+    keeps = _tuple_attrs(wbody[0].value, ATOMIC_NAME + ': keeps')
+    state = _tuple_attrs(wbody[3].value, ATOMIC_NAME + ': old_state')
+    handler = wbody[4].handlers[0].body
+    if _tuple_attrs(handler[1].targets[0], ATOMIC_NAME + ': masks put back') != keeps \
+            or _tuple_attrs(handler[4].targets[0], ATOMIC_NAME + ': state put back') != state:
+        raise TranslateError('%s: the handler does not put back what was remembered' % ATOMIC_NAME)
+    restores = keeps + ['_selection'] + state
+    if sorted(restores) != sorted(ATOMIC_STATE):
+        raise TranslateError('%s: restores %s, the state of select() is %s' % (ATOMIC_NAME, restores, ATOMIC_STATE))
+    # the import the decorator needs
+    if not any(isinstance(n, ast.Import) and any(a.name == 'functools' and a.asname is None for a in n.names) for n in tree.body):
+        raise TranslateError('%s: `import functools` not found' % REL)
+    out.append('Definition sel_atomic : bool := true.')
+    out.append('Definition sel_atomic_restores : list string := %s.' % coq_strings(restores))
+
+
+ITEMS = [item_select_tables, item_select_decisions, item_select_atomic]
